@@ -285,6 +285,28 @@ def nostd_compile(res):
         C.scratch_cleanup(d)
 
 
+def aliased_crate_compile(res):
+    """The corpus in a crate that uses the name `core` for another crate (`extern crate alloc as core;`): an expansion that
+    spells `::core::..` itself, instead of going through `derive_more::core`, no longer resolves (added after seed C15-j)."""
+    corpus = open(CORPUS).read().replace("::core::fmt::", "::std::fmt::")
+    d = C.scratch_crate("c15-alias", "")
+    os.remove(os.path.join(d, "src", "main.rs"))
+    with open(os.path.join(d, "src", "lib.rs"), "w") as f:
+        f.write("#![allow(dead_code, unused)]\nextern crate alloc as core;\npub mod plain {\n" + corpus + "\n}\n")
+    try:
+        rc, diags, err = C.scratch_check(d)
+        errs = [dg for dg in diags if dg.get("level") == "error"]
+        for dg in errs[:6]:
+            msg = dg.get("message", "")
+            res.violation("alias:" + msg[:100], f"the corpus does not compile in a crate where `core` names another crate (`extern crate alloc as core;`): {msg[:200]}",
+                          {"cmd": "aliased-crate-compile", "error": (dg.get("rendered") or msg)[:1500]})
+        if rc != 0 and not errs:
+            raise C.BuildError("C15 aliased-crate crate did not build", err[-3000:])
+        return {"aliased_core_errors": len(errs)}
+    finally:
+        C.scratch_cleanup(d)
+
+
 def translator_faithful(info):
     """Front end: every extracted template, re-printed, is literally in the source span it was taken from.
     Back end: the identifiers the Lean table holds are the identifiers of the extraction, in order."""
@@ -333,6 +355,7 @@ def run(tier):
         lean_ok, _ = C.lake_build(["Dm.Props.C15"])
         stats = hostile_compile(res, tier)
         ns = nostd_compile(res)
+        ns.update(aliased_crate_compile(res))
         extra = [("translator: templates re-print into their source spans; Lean table ids == names (gen-selfcheck)", gen_ok and table_ok and not faithful),
                  ("regenerated table: no template has an escaping head (model evaluation)", escaping == [])]
         cov = {
